@@ -482,13 +482,29 @@ impl World {
         self.nodes.values().filter(|n| n.running()).map(|n| n.id).collect()
     }
 
+    /// The applied index the application passes in `Config`. An application that keeps its
+    /// applied index apart from the raft storage can crash after the snapshot reached the
+    /// storage and before it recorded the new applied index: it restores its state machine
+    /// from the snapshot but still passes the older index (legal: raft hands out nothing at or
+    /// below the snapshot anyway). Chosen without a PRNG draw so that stored replays keep
+    /// their meaning: every third (incarnation + id) whose state machine sits exactly at the
+    /// durable truncation point.
+    fn config_applied(node: &Node) -> u64 {
+        let t = node.disk.durable.trunc_index;
+        if t > 1 && node.sm.applied == t && node.incarnation > 0 && (node.incarnation as u64 + node.id) % 3 == 0 {
+            t / 2
+        } else {
+            node.sm.applied
+        }
+    }
+
     fn make_config(node: &Node) -> Config {
         let c = &node.cfg;
         Config {
             id: node.id,
             election_tick: c.election_tick,
             heartbeat_tick: c.heartbeat_tick,
-            applied: node.sm.applied,
+            applied: Self::config_applied(node),
             max_size_per_msg: c.max_size_per_msg,
             max_inflight_msgs: c.max_inflight_msgs,
             check_quorum: c.check_quorum,
@@ -766,6 +782,7 @@ impl World {
         let logger = self.logger.clone();
         let node = self.nodes.get_mut(&n).unwrap();
         let cfg = Self::make_config(node);
+        let stale_applied = cfg.applied < node.sm.applied;
         let store = node.disk.store.clone();
         let res = catch_unwind(AssertUnwindSafe(|| RawNode::new(&cfg, store, &logger)));
         let raw = match res {
@@ -783,6 +800,9 @@ impl World {
         node.obs = Self::observe(&raw);
         node.unst = Self::shadow_unstable(&raw);
         node.raw = Some(raw);
+        if stale_applied {
+            *self.stats.entry("restart_with_config_applied_below_snapshot").or_insert(0) += 1;
+        }
         node.apply_q.clear();
         node.outstanding.clear();
         node.handoff = node.sm.applied;
@@ -1220,11 +1240,15 @@ impl World {
             }
         }
         if notify {
-            let (sm_applied, raft_applied) = {
+            let (sm_applied, raft_applied, first) = {
                 let node = &self.nodes[&n];
-                (node.sm.applied, node.obs.applied)
+                (node.sm.applied, node.obs.applied, node.obs.first_index)
             };
-            if sm_applied > raft_applied {
+            // `sm_applied < first` only after a restart with Config.applied below the snapshot
+            // point: nothing at or below the snapshot is ever handed out, so there is nothing
+            // to report (reporting it and then calling advance(), which reports the older
+            // hand-off index again, is a mix the documentation does not cover: not simulated).
+            if sm_applied > raft_applied && sm_applied >= first {
                 self.call(n, CallKind::ApplyTo { index: sm_applied }, move |raw| {
                     raw.advance_apply_to(sm_applied);
                     Ok(())
